@@ -298,6 +298,25 @@ def model_output(fam, case, scratch):
 # ------------------------------------------------------------------------------------------------
 # Shrinking (delta debugging over input["ops"] or the list named by fam["shrink_key"])
 
+def reproduces(fam, case, kind, binary, scratch, tries=2):
+    """Families whose observations depend on wall-clock waits (a feed goroutine that has not yet delivered when the
+    harness looks, a poll that comes late on a loaded machine) re-execute a failing input by itself: it counts
+    only if it fails again.  Returns the failing re-execution, or None if every re-execution passed."""
+    rp = os.path.join(scratch, "retry_in.jsonl")
+    with open(rp, "w") as fh:
+        fh.write(json.dumps(case["input"]) + "\n")
+    for _ in range(tries):
+        rc, out, cs = run_harness(binary, fam["family"], scratch, replay=rp, param=fam.get("param", ""), timeout=300)
+        if rc != 0 or not cs:
+            return case  # the implementation failed outright or the harness did: not a timing matter
+        if cs[0].get("discard"):
+            continue
+        bc, bk, errs = evaluate(fam, cs[:1], scratch, shard_size=1, tag="rtr")
+        if errs or (0 in bc) or (0 in bk):
+            return cs[0]
+    return None
+
+
 def shrink(fam, case, kind, binary, scratch, budget=40):
     key = fam.get("shrink_key", "ops")
     inp = case["input"]
@@ -612,6 +631,14 @@ def main():
             for kind, idxs in (("chk", bad_chk), ("corr", [i for i in bad_corr if i not in bad_chk])):
                 for i in idxs[:6]:
                     case = all_cases[i]
+                    if fam.get("timed") and not args.replay:
+                        again = reproduces(fam, case, kind, binary, scratch)
+                        if again is None:
+                            discards += 1
+                            notes.append("%s case %d failed once and passed when re-executed by itself twice: counted as timing-unstable (input: %s)"
+                                         % (famname, i, json.dumps(case["input"])[:600]))
+                            continue
+                        case = again
                     small = shrink(fam, case, kind, binary, scratch) if not (args.replay or no_shrink) else case
                     sig = {"family": famname, "kind": kind}
                     sigfn = fam.get("signature")
